@@ -249,13 +249,13 @@ def check(ctx, rep):
             lens = sorted({len(i.encode("utf-8")) for i, _n in pairs})
             var = None
             for bi in pre:
-                m = re.search(r"(core::str::<impl str>::len\(_1\)|len\(_1\))", repr(G.describe(gu, gu.term(bi)["op"])))
+                m = re.search(r"(core::str::<impl str>::len\(_1\*?\))", repr(G.describe(gu, gu.term(bi)["op"])))
                 if m:
                     var = m.group(1)
             if var is None:
                 rep.bad("R-UNITS", "R-UNITS:get_unit-unconditional", gu.where(pre[0]), "get_unit branches before the table lookup on a condition this rule cannot evaluate for every identifier (%s)" % repr(G.describe(gu, gu.term(pre[0])["op"]))[:100])
             else:
-                must, may = G.byte_set_reaching(gu, var, 0, getb, {}, values=lens)
+                must, may = G.byte_set_reaching(gu, var, 0, getb, {}, values=lens, through_calls=True)
                 cut = [l for l in lens if l not in must]
                 if cut:
                     ex = [i for i, _n in pairs if len(i.encode("utf-8")) in cut][:3]
